@@ -9,5 +9,5 @@ Extraction "leaves.ml" affine_fwd affine_inv affine_ld loc_fwd loc_inv scale_fwd
   exp_fwd exp_inv exp_ld_fwd exp_ld_inv softplus_fwd softplus_ld_fwd softplus_inv softplus_ld_inv
   tanh_log_grad tanh_fwd tanh_inv tanh_ld_fwd tanh_ld_inv leaky_grad leaky_icpt leaky_fwd leaky_ld_fwd leaky_inv leaky_ld_inv
   rqs_fwd rqs_inv rqs_deriv rqs_ld_fwd rqs_ld_inv rqs_fwd_old rqs_inv_old
-  lift lift_ld lift2 lift3 tri_fwd tri_ld tri_inv planar_u planar_fwd planar_ld_fwd planar_inv planar_ld_inv sum.
+  lift lift_ld lift2 lift3 tri_fwd tri_ld tri_inv planar_u planar_u_old planar_fwd planar_ld_fwd planar_inv planar_ld_inv sum.
 Cd "../../coq".
